@@ -266,6 +266,11 @@ def _work(item, seed, tier):
     p, root, depth = item
     known = [k["signature"] for k in core.load_known() if k["property"] == "C06" and k["status"] == "known"]
     explore.explore(lambda: make(p), acc, depth=depth, case="explore", params=p, root=root, prune=True, known=known)
+    # (the gated BLE harness also carries C17's attribution clause; it is C17's check that reports it)
+    acc.viol = [v for v in acc.viol if not v["signature"].startswith("c17:")]
+    for k in list(acc.viol_count):
+        if k.startswith("c17:"):
+            del acc.viol_count[k]
     return acc
 
 
